@@ -41,6 +41,8 @@ JudgeRow(e) ==
   IN  IF e.ev = "raw"
       THEN Flag(l = 1, "Conf_raw_not_first") \cup Flag(G = RawGrouping, "Conf_raw_grouping")
       ELSE Flag(G \in cands, "Conf_not_a_candidate")
+      \cup (IF G \notin cands \/ e.m = 0 - 1 THEN {}
+            ELSE Flag(MeasureValueOK(Tab, Cfg, st, G, e.m), "C16_hist_measure_value"))
       \cup (IF G \notin cands THEN {} ELSE
               \* tested in non-increasing measure
               (IF prev = <<>> \/ prev[2] # st THEN {}
